@@ -6,7 +6,7 @@ From Coq Require Import ZArith NArith List Bool Lia.
 From Spec Require Import ISA Spec816.
 From Lib Require Import ZOps Machine.
 From Snapshot Require Import GenFields GenCpu65.
-From Props Require Import C01Base C01Flow C01Imm C01JmpBase.
+From Props Require Import C01Base C01Flow C01Imm C01JmpBase C01JmpTac.
 Import ListNotations.
 Local Open Scope Z_scope.
 Arguments Z.modulo : simpl never.
